@@ -9,7 +9,11 @@
 (*       uses 64-bit words; the model is scaled to WBits so that TLC can   *)
 (*       enumerate every word including the minimum).  TsBug = "negmin" is *)
 (*       the pinned test `-1 * offset > ticks`, whose negation overflows   *)
-(*       for the minimum word.                                             *)
+(*       for the minimum word.  TsBug = "addoverflow" is the pinned        *)
+(*       `ticks += offset` without a test: undefined (signed overflow, ub) *)
+(*       when the sum exceeds the largest word -- reachable from the       *)
+(*       reader with an earliest-time just below 2^63 ticks (C03).  The    *)
+(*       repaired code refuses such an offset.                             *)
 (***************************************************************************)
 EXTENDS Integers, TLC
 
@@ -32,13 +36,15 @@ Normalised(ts, tps) == ts.t < tps
 (* ------------------------------- Impl ---------------------------------- *)
 ImplOffset(t, ref, tps) == Wrap(Wrap(t.s * tps + t.t) - Wrap(ref.s * tps + ref.t))
 ImplAdd(ref, off, tps) ==
-    IF tps = 0 THEN [refused |-> TRUE, ts |-> ref]
+    IF tps = 0 THEN [refused |-> TRUE, ts |-> ref, ub |-> FALSE]
     ELSE LET ticks == Wrap(ref.s * tps + ref.t)
              refuse == IF TsBug = "negmin" THEN Wrap(-1 * off) > ticks     \* -MinW wraps to MinW
                        ELSE off < -ticks
-         IN IF refuse THEN [refused |-> TRUE, ts |-> ref]
+             over   == off > 0 /\ ticks > MaxW - off                      \* ticks + off is not a word
+         IN IF refuse THEN [refused |-> TRUE, ts |-> ref, ub |-> FALSE]
+            ELSE IF over /\ TsBug # "addoverflow" THEN [refused |-> TRUE, ts |-> ref, ub |-> FALSE]
             ELSE LET x == Wrap(ticks + off) IN
                  \* unsigned reinterpretation of a negative word: a huge value, never the right answer
-                 IF x < 0 THEN [refused |-> FALSE, ts |-> [s |-> -1, t |-> -1]]
-                 ELSE [refused |-> FALSE, ts |-> [s |-> x \div tps, t |-> x % tps]]
+                 IF x < 0 THEN [refused |-> FALSE, ts |-> [s |-> -1, t |-> -1], ub |-> over]
+                 ELSE [refused |-> FALSE, ts |-> [s |-> x \div tps, t |-> x % tps], ub |-> over]
 =============================================================================
